@@ -2,7 +2,7 @@
    Statement file: theorems, [exact lemma], Print Assumptions.  All statements are over Z with
    the Python index/slice semantics of Base/PySlice.v and hold for ALL n, t > 0. *)
 From Coq Require Import ZArith List Bool.
-From GPV Require Import Base.PySlice Models.C11_mtmvn Proofs.C11_mtmvn.
+From GPV Require Import Base.PySlice Models.C11_mtmvn Proofs.C11_mtmvn Gen.MTIndex_gen Proofs.C11_gen.
 Import ListNotations.
 Local Open Scope Z_scope.
 
@@ -106,6 +106,14 @@ Theorem c11_constructors_independent_tasks :
 Proof. intros X. exact (@block_cov_is_indep X). Qed.
 Print Assumptions c11_constructors_independent_tasks.
 
+(* from_batch_mvn: an accepted task_dim (negative values count from the end of the batch shape) is
+   normalised to a position 0..nbatch of the batch shape *)
+Theorem c11_from_batch_mvn_task_dim :
+  forall nbatch td k, 0 < nbatch -> task_dim_norm nbatch td = Some k ->
+    0 <= k <= nbatch /\ (k = td \/ k = nbatch + td).
+Proof. exact task_dim_norm_ok. Qed.
+Print Assumptions c11_from_batch_mvn_task_dim.
+
 (* --- indexing: every branch selects exactly the requested (point, task) pairs ----------------- *)
 (* for all n, t, all ints (negative too), all slices (any start/stop/step, None), index vectors,
    in both layouts: the flat positions the code reads = the flat positions of the pairs that
@@ -136,6 +144,49 @@ Theorem c11_tuple_omitted_task_index :
 Proof. exact normalize_tuple_no_task. Qed.
 Print Assumptions c11_tuple_omitted_task_index.
 
+(* --- tie T: the same theorems over the arithmetic REGENERATED from the current source ------------
+   Gen/MTIndex_gen.v is rewritten by harness/translators/mtindex_tr.py on every run from
+   MultitaskMultivariateNormal.__getitem__ / _normalize_index / _normalize_slice /
+   to_data_independent_dist; these statements are re-checked against that text. *)
+Theorem c11_gen_getitem_selects_requested_pairs :
+  forall il n t ri ci, 0 < n -> 0 < t ->
+    gen_getitem_event il n t ri ci = spec_indices il n t ri ci.
+Proof. exact gen_getitem_event_correct. Qed.
+Print Assumptions c11_gen_getitem_selects_requested_pairs.
+
+Theorem c11_gen_getitem_positions_in_range :
+  forall il n t ri ci l k, 0 < n -> 0 < t ->
+    gen_getitem_event il n t ri ci = Some l -> In k l -> 0 <= k < n * t.
+Proof. exact gen_getitem_event_in_range. Qed.
+Print Assumptions c11_gen_getitem_positions_in_range.
+
+Theorem c11_gen_tuple_explicit :
+  forall dim (b : list pyidx) ri ci, Z.of_nat (length b) + 2 = dim ->
+    gen_normalize_tuple dim (map EI b ++ [EI ri; EI ci]) = Some (b, Some (ri, ci)).
+Proof. exact gen_tuple_explicit. Qed.
+Print Assumptions c11_gen_tuple_explicit.
+
+Theorem c11_gen_tuple_omitted_task_index :
+  forall dim (b : list pyidx) ri, Z.of_nat (length b) + 2 = dim ->
+    gen_normalize_tuple dim (map EI b ++ [EI ri])
+    = gen_normalize_tuple dim (map EI b ++ [EI ri; EI (ISlice full_slice)]).
+Proof. exact gen_tuple_no_task. Qed.
+Print Assumptions c11_gen_tuple_omitted_task_index.
+
+(* to_data_independent_dist: data_indices[i] + task_indices[a] (the two aranges of the source) is the
+   flat position of the pair (i, a) in the layout of the stored covariance *)
+Theorem c11_gen_data_independent_indices :
+  forall il n t i a, 0 < n -> 0 < t -> 0 <= i < n -> 0 <= a < t ->
+    gen_tdid_index il n t i a = flat il n t i a.
+Proof. exact gen_tdid_index_flat. Qed.
+Print Assumptions c11_gen_data_independent_indices.
+
+(* the model executed by the correspondence check (run_getitem) IS the regenerated arithmetic *)
+Theorem c11_gen_is_the_executed_model :
+  forall c, gen_run_getitem c = run_getitem c.
+Proof. exact gen_run_getitem_eq. Qed.
+Print Assumptions c11_gen_is_the_executed_model.
+
 (* --- the pinned arithmetic is refuted (DESIGN section 10; repaired by fix: commits) ------------ *)
 Theorem c11_slice_int_pinned_refuted :
   exists NR NC s c, 0 < NR /\ 0 < NC /\
@@ -164,3 +215,6 @@ Example ex_c11_getitem_noninterleaved_neg :
 Proof. vm_compute. reflexivity. Qed.
 Example ex_c11_shuffle : map (shuffle 2 3) [0; 1; 2; 3; 4; 5] = [0; 2; 4; 1; 3; 5].
 Proof. vm_compute. reflexivity. Qed.
+Example ex_c11_gen_getitem_slice_int :
+  gen_tie_available = true -> gen_getitem_event true 4 3 (ISlice (mk (Some 1) (Some 3) None)) (IInt 2) = Some [5; 8].
+Proof. intros _. rewrite gen_getitem_event_eq. vm_compute. reflexivity. Qed.
